@@ -59,7 +59,7 @@ def check(src, rep):
     rep.not_decided = NOT_DECIDED
     rep.assumptions = ["str.split() semantics for what a word is (maximal runs of non-whitespace)"]
     rep.trusted_base = ["CPython ast", "sa/consteval.py", "sa/absint.py", "sa/objinterp.py"]
-    it = new_interp(src)
+    it = new_interp(src, check_views=True)
     f = src.func("formatstring", "linesplit")
     maxlen = 7 if rep.tier == "thorough" else 5
     alphabet = "ab \t" + ("\n\u3000" if rep.tier == "thorough" else "")
@@ -175,7 +175,7 @@ def check(src, rep):
     bad = {}
     for first, second in hist:
         for columns in (4, 9):
-            it2 = new_interp(src)
+            it2 = new_interp(src, check_views=True)
             saved, it = it, it2
             try:
                 r1 = one((base, "first call", first, columns))
